@@ -23,6 +23,30 @@ def bonds(bs):
     return [[S(b[0]), S(b[1])] for b in bs]
 
 
+def listing_oracle(ctx, g, tag, dirns=('h', 'v')):
+    """bonds() / sites() without a direction and with reverse=True list exactly the per-direction listings, each bond once"""
+    try:
+        per = [list(g.bonds(d)) for d in dirns]
+        allb = list(g.bonds())
+        rev = list(g.bonds(reverse=True))
+        flat = [b for bs in per for b in bs]
+        if allb != flat:
+            ctx.violation('bonds() is not the per-direction listings %r one after the other on %r' % (dirns, tag), dict(tag, kind='bonds-all'), family='bonds-all')
+        if rev != allb[::-1]:
+            ctx.violation('bonds(reverse=True) is not bonds() reversed on %r' % (tag,), dict(tag, kind='bonds-all-reverse'), family='bonds-all')
+        for d, bs in zip(dirns, per):
+            if list(g.bonds(d, reverse=True)) != bs[::-1]:
+                ctx.violation('bonds(%r, reverse=True) is not bonds(%r) reversed on %r' % (d, d, tag), dict(tag, kind='bonds-reverse', dirn=d), family='bonds-all')
+        # (two directions may join the same pair of sites on a wrapped lattice of width 1: only repetitions within one direction are errors;
+        #  'h' and 'v' are examined by the lattice oracles themselves)
+        if 'd' in dirns and len(set(per[dirns.index('d')])) != len(per[dirns.index('d')]):
+            ctx.violation("bonds('d') lists a bond twice on %r" % (tag,), dict(tag, kind='bonds-d-dup'), family='bonds-all')
+        if list(g.sites(reverse=True)) != list(g.sites())[::-1]:
+            ctx.violation('sites(reverse=True) is not sites() reversed on %r' % (tag,), dict(tag, kind='sites-reverse'), family='bonds-all')
+    except (TypeError, AttributeError, IndexError, KeyError) as e:
+        ctx.violation('listing all bonds / sites raised %s: %s on %r' % (type(e).__name__, str(e)[:100], tag), dict(tag, kind='bonds-all-raise'), family='bonds-all')
+
+
 def square_cases(ctx, fpeps, YastnError, quick):
     cases = []   # (op, arg, impl_result, desc)
     dims = [(nx, ny) for nx in range(1, 6) for ny in range(1, 6)]
@@ -76,6 +100,7 @@ def square_oracle(ctx, fpeps, YastnError):
             for bc in BCS:
                 g = fpeps.SquareLattice(dims=(Nx, Ny), boundary=bc)
                 tag = dict(dims=(Nx, Ny), boundary=bc)
+                listing_oracle(ctx, g, dict(tag, lattice='square'))
                 sites = list(g.sites())
                 if len(set(sites)) != len(sites) or set(sites) != {(x, y) for x in range(Nx) for y in range(Ny)}:
                     ctx.violation('sites() is not the unit cell listed once: %r' % tag, dict(kind='sites', **tag))
@@ -179,6 +204,7 @@ def ruc_real(fpeps, YastnError, p, window, as_dict):
 def ruc_oracle(ctx, g, p, YastnError):
     Nx, Ny = len(p), len(p[0])
     tag = dict(pattern=p)
+    listing_oracle(ctx, g, dict(tag, lattice='rectangular-unitcell'))
     # accepted => every label has a single neighbourhood; indexing periodic; unique sites = one per label
     envs = {}
     for x in range(Nx):
@@ -306,6 +332,7 @@ def run(ctx):
     cases.append((OP_SPECIAL, [1, 3, 3, 0, [list(w) for w in win]],
                   [[S(s) for s in g.sites()], bonds(g.bonds('h')), bonds(g.bonds('v')), bonds(g.bonds('d')), [int(g.site2index(s)) for s in win]], dict(kind='triangular3')))
     for g, nm in ((fpeps.CheckerboardLattice(), 'checkerboard'), (fpeps.TriangularLattice(), 'triangular3')):
+        listing_oracle(ctx, g, dict(lattice=nm), dirns=('h', 'v') if nm == 'checkerboard' else ('h', 'v', 'd'))
         for dirn, code in (('h', 'lr'), ('v', 'tb')):
             for b in g.bonds(dirn):
                 if g.nn_bond_dirn(*b) != code or not g.f_ordered(*b):
@@ -317,6 +344,7 @@ def run(ctx):
         for Ny in range(1, 5):
             for bi, bc in enumerate(BCS):
                 g = fpeps.TriangularLattice(dims=(Nx, Ny), boundary=bc, full_patch=True)
+                listing_oracle(ctx, g, dict(lattice='triangular-full', dims=(Nx, Ny), boundary=bc), dirns=('h', 'v', 'd'))
                 bd = [[osite(b[0]), osite(b[1])] for b in g.bonds('d')]
                 cases.append((OP_SPECIAL, [2, Nx, Ny, bi, [list(w) for w in win]],
                               [[S(s) for s in g.sites()], bonds(g.bonds('h')), bonds(g.bonds('v')), bd, [int(g.site2index(s)) for s in win]],
